@@ -40,9 +40,9 @@ def rows_in_log(gp, log, he, tag):
     LX, LY, LS = log["X"], log["Y"], log["S"]
     index = {}
     for j in range(len(LX)):
-        index.setdefault(LX[j].tobytes(), []).append(j)
+        index.setdefault((LX[j] + 0.0).tobytes(), []).append(j)  # (+ 0.0: -0.0 and 0.0 are the same point)
     for i in range(len(gp["X"])):
-        js = index.get(np.asarray(gp["X"][i], dtype=float).tobytes())
+        js = index.get((np.asarray(gp["X"][i], dtype=float) + 0.0).tobytes())
         if not js:
             out.append(viol("a:training-input-not-logged", f"{tag}: GP row {i} X={gp['X'][i].tolist()} is not a logged point"))
             break
@@ -139,9 +139,21 @@ def run_oracle(scn, tr):
                 if not (np.array_equal(g["X"], b4["X"]) and np.array_equal(g["y"], b4["y"])):
                     add([viol("c:add-changed-existing-rows", f"failed update left a different training set ({len(b4['X'])} rows)")])
                 continue
-            if len(g["X"]) != len(b4["X"]) + 1 or not (np.array_equal(g["X"][:-1], b4["X"]) and np.array_equal(g["y"][:-1], b4["y"])):
+            # under specified noise a repeated evaluation is merged into its log record; the training row of that point (if any)
+            # then has to follow the log: it is replaced by the appended (merged) pair, every other row stays as it was
+            dup = np.all(b4["X"] == np.asarray(e["x"], dtype=float).reshape(1, -1), axis=1) if e["he"] and len(b4["X"]) else np.zeros(len(b4["X"]), bool)
+            if np.any(dup):
+                labs.add("add:repeated-point-under-specified-noise")
+                nt = True
+            kept_X, kept_y = b4["X"][~dup], b4["y"][~dup]
+            ok_replace = np.any(dup) and len(g["X"]) == len(kept_X) + 1 and np.array_equal(g["X"][:-1], kept_X) and np.array_equal(g["y"][:-1], kept_y)
+            ok_append = len(g["X"]) == len(b4["X"]) + 1 and np.array_equal(g["X"][:-1], b4["X"]) and np.array_equal(g["y"][:-1], b4["y"])
+            if not (ok_replace or ok_append):
                 add([viol("c:add-changed-existing-rows", f"before {len(b4['X'])} rows, after {len(g['X'])}")])
                 continue
+            if np.any(dup):
+                # all rows, not only the new one: a stale copy of the merged record must not stay behind
+                add(rows_in_log(g, e["log"], e["he"], "add_and_update_gp (repeated point)"))
             yv = float(np.asarray(e["y"]).ravel()[0])
             if not (np.array_equal(g["X"][-1], e["x"]) and float(g["y"][-1, 0]) == yv):
                 add([viol("c:add-row-not-the-evaluated-point", f"last row {g['X'][-1].tolist()}, {float(g['y'][-1, 0])!r}; evaluated {e['x'].tolist()}, {yv!r}")])
